@@ -168,7 +168,8 @@ def forced(tier_n, rng):
         kind = rng.choice(["none", "int"]) if cls in SIMPLE else "-"
         n = pick_size(rng)
         es = wide_edges(rng, n, cls, hubs=rng.choice([1, 2]))
-        vals = {canon(cls, e): (1 if cls in SIMPLE and kind == "none" else val_for(rng, cls, kind)) for e in es}
+        vals = {canon(cls, e): (1 if (cls in SIMPLE and kind == "none") or (cls in MULTI and rng.random() < 0.4)
+                                else val_for(rng, cls, kind)) for e in es}
         ops = ["mode quiet", gen.new_line(0, cls, kind, n)]
         calls = []
         for e in es:
@@ -186,7 +187,10 @@ def forced(tier_n, rng):
             # a repeated pair is always forced in the weighted / multigraph classes (see wl_C16)
             force = 1 if (k in first and cls not in SIMPLE) else f
             first.add(k)
-            ops.append(add_op(cls, 0, i, j, vals[k], force=force))
+            if cls in MULTI and vals[k] == 1 and rng.random() < 0.5:
+                ops.append(f"addEdge 0 {i} {j} {force}")   # single-edge entry point of the multigraphs
+            else:
+                ops.append(add_op(cls, 0, i, j, vals[k], force=force))
         ops += ["dump 0", "removeDuplicateEdges 0", "dump 0"]
         ops += build(rng, cls, kind, n, es, 1, vals)
         ops += ["eq 0 1", "eq 1 0"]
